@@ -99,9 +99,9 @@ func describeRun(r *Run, withProg bool) map[string]interface{} {
 	if len(r.Ops) > 0 {
 		m["operator"] = r.Ops
 	}
-	if r.Class() != "complete" {
+	if r.Class() != "complete" || os.Getenv("VERIF_FULLSCHED") != "" {
 		out := r.outBuf.String()
-		if len(out) > 3000 {
+		if len(out) > 3000 && os.Getenv("VERIF_FULLSCHED") == "" {
 			out = out[len(out)-3000:]
 		}
 		m["mrp_output_tail"] = out
